@@ -106,12 +106,13 @@ class HeaderParse(Task):
     qual = PCK + "__init__"
     inline = INLINE_PCK
 
-    def __init__(self, prop, nd, nf, nboxes, limit=None, maxmins=False, header_only=False, repeated=None, ref_extra=0, files=1):
+    def __init__(self, prop, nd, nf, nboxes, limit=None, maxmins=False, header_only=False, repeated=None, ref_extra=0, files=1,
+                 validate=False):
         self.prop = prop
         self.cfg = dict(nd=nd, nf=nf, nboxes=nboxes, limit=limit, maxmins=maxmins, header_only=header_only, repeated=repeated,
-                        ref_extra=ref_extra, files=files)
+                        ref_extra=ref_extra, files=files, validate=validate)
         self.name = (f"PlotfileCooker.__init__[nd={nd},nf={nf},boxes={nboxes},limit={limit},maxmins={maxmins},"
-                     f"header_only={header_only},repeated={repeated},ref+{ref_extra},files={files}]")
+                     f"header_only={header_only},repeated={repeated},ref+{ref_extra},files={files}" + (",validate_mode" if validate else "") + "]")
 
     def functions(self):
         return [self.qual] + list(INLINE_PCK)
@@ -131,6 +132,8 @@ class HeaderParse(Task):
         install(ex, fs, root, pf, cellh=not c["header_only"])
         self_ = Record("amr_kitchen.plotfile_cooker.PlotfileCooker")
         kw = dict(limit_level=c["limit"], header_only=c["header_only"], maxmins=c["maxmins"])
+        if c.get("validate"):
+            kw["validate_mode"] = True          # the way taste opens the plotfile
         return {"self": self_, "args": [root], "kwargs": kw, "pf": pf, "fs": fs}
 
     def post(self, ex, inp, out):
@@ -165,6 +168,10 @@ def header_tasks(prop, tier):
                      dict(nd=3, nf=4, nboxes=[1, 2, 4], repeated=(0, 1), limit=2), dict(nd=2, nf=2, nboxes=[3], header_only=True)]
         for c in cfgs:
             out.append(HeaderParse("C02", **c))
+    if prop in ("C03", "C20"):
+        # the reader as taste builds it (validate_mode): every well-formed header is accepted and exposed unchanged
+        for c in [dict(nd=3, nf=2, nboxes=[2, 1], files=2, validate=True), dict(nd=2, nf=3, nboxes=[1, 2], limit=0, ref_extra=1, maxmins=True, validate=True)]:
+            out.append(HeaderParse(prop, **c))
     if prop == "C14":
         from props.roundtrip import roundtrip_tasks
         out += roundtrip_tasks(tier)
